@@ -34,6 +34,8 @@ class MpmcbEngine(Engine):
     def corpus(self):
         F = FIXES
         return [
+            "2 a %s mr 10 1 po 10 100 cs 1 ts 0 po 10 100" % F,                                  # seeded C04-1: pending recv future outlives close
+            "2 a %s cl 1 2 mr 10 1 po 10 100 cs 1 dr 2 ts 0 ms 11 0 po 11 101" % F,
             "2 s %s ts 0 cs 1 rt 1 tr 1" % F,                                                   # F-03
             "2 a %s cs 0 tr 1 ms 10 0 po 10 100 tr 1" % F,                                       # F-03 futures
             "2 a %s ts 0 cs 1 mr 10 1 po 10 100" % F,
@@ -69,6 +71,28 @@ class MpmcbEngine(Engine):
         Fu = {}                                                               # id -> [recv?, live?]
         nh, nf = 2, 10
         malformed = rng.chance(1, 10)
+        if kind == "a" and rng.chance(1, 4):
+            # scripted prologue: a pending future outlives the close() of the handle it was created from
+            # (its waiter entry is still queued), then every form is tried against that state
+            if rng.chance(2, 3):
+                extra = []
+                if rng.chance(1, 3):
+                    toks += ["cl", "1", str(nh)]
+                    H[nh] = [False, True, True]
+                    extra = [nh]
+                    nh += 1
+                toks += ["mr", str(nf), "1", "po", str(nf), "100"]
+                Fu[nf] = [True, True, 1]
+                nf += 1
+                for h in [1] + extra:
+                    toks += ["cs", str(h)]
+            else:
+                for _ in range(cap):
+                    toks += ["ts", "0"]
+                toks += ["ms", str(nf), "0", "po", str(nf), "100"]
+                Fu[nf] = [False, True, 0]
+                nf += 1
+                toks += ["cs", "0"]
 
         def pick_h(pred):
             c = [h for h, v in H.items() if v[2] and pred(v)]
